@@ -3,7 +3,7 @@ import ast
 import re
 
 from .. import regexast as RX
-from ..cfg import CFG, enumerate_paths, lexical_guard, local_defs, single_defs
+from ..cfg import CFG, G, conjuncts, enumerate_paths, lexical_guard, local_defs, single_defs
 from ..consteval import Folder, TOP
 from ..report import AnalysisError
 from ..srcmodel import is_self_attr, unparse
@@ -165,8 +165,13 @@ def rule_position(src, rep, fold, counts):
         c = cb_calls[0]
         g = lexical_guard(f.module, c, f.node)
         arg = unparse(c.args[0]) if c.args else ""
-        ok = ("self.extra_bytes_callback is not None", True) in g and any(t == "extra" and p for t, p in g) and \
+        enc_arg = unparse(c.args[0].args[0]) if c.args and isinstance(c.args[0], ast.Call) and c.args[0].args else ""
+        ok = G("self.extra_bytes_callback is not None") in g and any(t == "extra" and p for t, p in g) and \
             arg.startswith("extra.encode(")
+        enc_ok = "in_stream" in enc_arg and enc_arg.rstrip(")").endswith(".encoding")
+        rep.ob("U4-extra-bytes-encoded-with-stream-encoding", f.where(c), f.scope, arg, enc_ok,
+               "the preceding input was decoded by in_stream with ITS encoding; re-encoding it with `%s` gives other bytes than "
+               "arrived whenever the two differ (latin-1 tty under a UTF-8 locale, 8-bit keys)" % enc_arg)
         why = "guard %s, argument %s" % (g, arg)
         exv = defs.get("extra")
         ok = ok and exv is not None and "'extra'" in unparse(exv).replace('"', "'")
@@ -177,7 +182,7 @@ def rule_position(src, rep, fold, counts):
     ok = False
     for r in raises:
         g = lexical_guard(f.module, r, f.node)
-        if ("self.extra_bytes_callback is not None", False) in g and any(t == "extra" and p for t, p in g) and \
+        if G("self.extra_bytes_callback is not None", False) in g and any(t == "extra" and p for t, p in g) and \
                 r.exc is not None and unparse(r.exc.func if isinstance(r.exc, ast.Call) else r.exc) == "ValueError":
             ok = True
     rep.ob("U4-no-callback-raises-ValueError", f.where(), f.scope, "else: raise ValueError(...)", ok,
@@ -246,7 +251,7 @@ def rule_conservation(src, rep, counts):
     if ok:
         gz = lexical_guard(f.module, zero[0], f.node)
         gd = lexical_guard(f.module, diff[0], f.node)
-        ok = gz == [("self._last_cursor_row is None", True)] and gd == [("self._last_cursor_row is None", False)]
+        ok = gz == [G("self._last_cursor_row is None")] and gd == [G("self._last_cursor_row is None", False)]
         if not ok:
             why = "the first-call test is %s / %s, not `self._last_cursor_row is None`" % (gz, gd)
     else:
@@ -270,8 +275,9 @@ def rule_conservation(src, rep, counts):
             # sign agrees with the guard
             g = unparse(lp.test)
             if ok:
-                pos_guard = "%s > 0" % dy in g
-                neg_guard = "%s < 0" % dy in g
+                cjg = conjuncts(lp.test)
+                pos_guard = G("%s > 0" % dy) in cjg
+                neg_guard = G("%s < 0" % dy) in cjg
                 sign_ok = (pos_guard and dd < 0) or (neg_guard and dd > 0)
                 rep.ob("U5-loop-direction-matches-guard", f.where(lp), f.scope, "while %s: delta %s = %+d" % (g, dy, dd), sign_ok,
                        "the loop runs while %s but changes %s by %+d per step" % (g, dy, dd))
